@@ -85,6 +85,29 @@ def occupied_period_case(mode, verbose=False):
         except Exception as e:  # noqa
             refused.append((off, type(e).__name__))
     w.close()
+    # a further session that differs from the channel in ONE property the files embed (real samples for complex, another
+    # subchannel count, the other byte order): refused, or its files would contradict drf_properties.h5
+    import h5py
+    with h5py.File(os.path.join(chdir, "drf_properties.h5"), "r") as h:
+        props = {k: norm(v) for k, v in h.attrs.items()}
+    for what, kw in (("is_complex", dict(is_complex=True)), ("num_subchannels", dict(num_subchannels=2)), ("byte order", dict(dt=">i2"))):
+        try:
+            w3 = digital_rf.DigitalRFWriter(chdir, np.dtype(kw.get("dt", "i2")), 3600, 1000, k0 + 12 * pf, n, 1, uuid_str="differs-in-" + what,
+                                            compression_level=comp, is_complex=kw.get("is_complex", False), is_continuous=cont,
+                                            num_subchannels=kw.get("num_subchannels", 1), marching_periods=False)
+        except Exception:  # noqa
+            continue
+        try:
+            shape = (10, 2) if (kw.get("is_complex") or kw.get("num_subchannels")) else (10,)
+            w3.rf_write(np.zeros(shape, dtype=kw.get("dt", "i2")))
+            w3.close()
+        except Exception:  # noqa
+            pass
+        for f in wl.dump_files(chdir):
+            if norm(f["attrs"].get("uuid_str")) == "differs-in-" + what:
+                bad = {k: (norm(f["attrs"].get(k)), props.get(k)) for k in PROP_ATTRS if norm(f["attrs"].get(k)) != props.get(k)}
+                if bad:
+                    return {"session_differing_in": what, "accepted": True, "file": f["name"], "attribute (file, properties file)": bad}
     files = [f for f in wl.dump_files(chdir) if not f["tmp"] and norm(f["attrs"].get("uuid_str")) == "the-session"]
     seq = [(f["name"], norm(f["attrs"].get("sequence_num")), norm(f["attrs"].get("init_utc_timestamp"))) for f in files]
     if verbose:
@@ -102,6 +125,10 @@ def occupied_period_leg(res):
     for mode in ((False, 0), (True, 0), (True, 1)):
         res.count("session-running-into-an-occupied-period")
         prob = occupied_period_case(mode)
+        if prob and prob.get("accepted"):
+            res.violation("attr-differs-from-properties", "a later session differing from the channel in one embedded property was accepted: "
+                          "its files contradict drf_properties.h5", {"occupied_period": list(mode)}, "refused", prob)
+            return
         if prob:
             res.violation("sequence-not-increasing", "sequence_num does not increase with file time within a session that was refused "
                           "one file period and went on", {"occupied_period": list(mode)}, "increasing, one init timestamp", prob)
